@@ -48,8 +48,11 @@ C02Hit(h, S, line) ==
     Chk(0 \notin SeqRange(h.title), line, "C02", "returned title contains NUL"),
     IF HasRec(s, h.id) /\ Sentinels(s) /\ SentinelFree(RecOf(s, h.id).title)
       THEN LET p == ParseHL(h.title) IN
-           ChkIf(p.ok, ComposeSeq(S.lang, p.plain) = ComposeSeq(S.lang, StripNul(RecOf(s, h.id).title)),
-                 line, "C02", "title without markers differs from the stored title")
+           \* the stored title with the language's accent sequences composed and NUL dropped (in either order:
+           \* a NUL between a letter and its combining mark is the one case where the two orders differ)
+           ChkIf(p.ok, p.plain \in { StripNul(ComposeSeq(S.lang, RecOf(s, h.id).title)),
+                                     ComposeSeq(S.lang, StripNul(RecOf(s, h.id).title)) },
+                 line, "C02", "title without markers differs from the stored title (composed, NUL dropped)")
       ELSE NoRes >>)
 
 \* the same search with other markers: nothing but the markers changes
